@@ -107,6 +107,64 @@ CHECKS.update({
         design="Part II C14"),
 })
 
+CHECKS.update({
+    "C02": dict(
+        text=("Coq theorems over a model of tree_walker on abstract trees (readdir order, link resolution as data): the walk "
+              "equals `process the selected entries in order until the first failure`; targets are target_base ++ relative "
+              "path, injective, children below parents; selected entries have distinct paths; MIRROR: after a successful walk "
+              "every selected entry's target holds the same kind (file length / dir / identical link text / node type) and "
+              "FRAME: every path that is not a target or an ancestor of one is unchanged; Size updates sum to the selected "
+              "files. Tied to the code three ways: std::path algebra vs Paths.v (probe), libxcp::tree_walker vs the Gallina walk "
+              "on generated trees (operations, sizes, result, directories), and real xcp runs vs an independent Python "
+              "statement of cp's mapping rule with a whole-sandbox frame check."),
+        note=("sequential effect of the operations; schedule independence is C06, file bytes C01. Hypotheses: unique sibling "
+              "names, directory targets absent or directories, no symlinked directories on mapped destination paths. After "
+              "`fix: parfile reports a failed symlink creation`."),
+        technique="Coq proof over walker/destination-map model + three-layer differential correspondence",
+        design="Part II C02"),
+    "C08": dict(
+        text=("Coq theorems: with no-clobber no operation (copy, link, mkdir, mknod) is ever emitted for a target that exists, "
+              "in successful and failing walks, for every tree and matcher; any selected entry mapping onto an existing entry "
+              "makes the walk fail; FRAME: applying the emitted operations leaves every initially existing destination entry "
+              "exactly as it was; the worker-side check for special files refuses. Correspondence: real runs with collisions of "
+              "every kind (file, dir, FIFO, live/dangling symlink) x source kind x position, under random thread holds; model "
+              "result vs exit status; before/after snapshot of every pre-existing entry."),
+        note=("after `fix: --no-clobber treats a dangling symlink at the target as existing`. The existence oracle is the "
+              "initial destination state (ops own distinct targets: C06)."),
+        technique="Coq proof of no-op-on-existing + frame over walker model, snapshot correspondence under ptrace holds",
+        design="Part II C08"),
+    "C13": dict(
+        text=("Coq theorems (model after the dereference repair): under --dereference the walk never emits a link operation; a "
+              "reached dangling or cyclic link makes it fail; the selected entries are the image of the resolved tree (link to "
+              "file -> file entry, link to directory -> directory entry plus the target's contents under the link's path), and "
+              "success means every one of them was processed. Correspondence: real -r -L runs on trees with links to files/"
+              "dirs/links (chains to 30), relative/absolute, inside/outside, dangling, cycles, self and ancestor links vs an "
+              "independent resolver and vs the model on the harness-resolved tree."),
+        note="link resolution (canonicalize, 40-link limit, walkdir's ancestor-loop detection) is input data of the model.",
+        technique="Coq proof over walker model with link-resolution data + resolver/xcp/model three-way comparison",
+        design="Part II C13"),
+    "C16": dict(
+        text=("Coq theorems over the model of main()'s front (option conflict, argument split, glob oracle, validation block): "
+              "every invocation in the property's invalid classes is rejected by validation, for every position of the "
+              "offending source and all file-system oracles; passing validation implies the stated guarantees; -n with -f and "
+              "malformed/empty globs reject; a rejected invocation hands no sources to the driver. Correspondence: generated "
+              "invalid invocations x positions x destination states x drivers: exit status, error CLASS (message) vs the "
+              "model's code, and a byte-for-byte snapshot of the sandbox incl. directory mtimes."),
+        note=("after three validation repairs (known_findings.jsonl). clap's own usage errors are exercised by the "
+              "correspondence only. Validation issues only stat-like calls: side-effect freedom of a rejected run is observed."),
+        technique="Coq proof: declarative Invalid => validate rejects, + snapshot/error-class correspondence",
+        design="Part II C16"),
+    "C17": dict(
+        text=("Coq theorems for EVERY matcher: the walk with filter_entry pruning selects exactly the entries none of whose "
+              "ancestors-or-self is ignored (order preserved) and processes them; without the flag nothing is filtered. "
+              "Three-way correspondence on generated trees x .gitignore files from the property's pattern language: real "
+              "xcp copy set = git check-ignore's not-ignored set (with ancestor pruning) = the Gallina walk fed with the real "
+              "ignore crate's verdicts."),
+        note="partial: that the `ignore` crate implements git's glob semantics is validated against git itself, not proved.",
+        technique="Coq proof of pruning=filtering for all matchers + xcp/git/model three-way differential",
+        design="Part II C17"),
+})
+
 NOT_YET = {}
 
 def main():
